@@ -844,6 +844,17 @@ class Exec:
         return sconcat(self, parts)
 
     def ev_ListComp(self, e, fr):
+        if len(e.generators) == 1 and not e.generators[0].ifs:
+            g = e.generators[0]
+            it = self.as_iterable(self.eval(g.iter, fr))
+            if isinstance(it, SymSeq):
+                # lazy map over a symbolic-length sequence: element i is the expression evaluated with the target
+                # bound to the i-th item (pure expressions only: evaluated when, and as often as, it is looked at)
+                def get(i, it=it, g=g, e=e, fr=fr):
+                    f2 = Frame(fr.modqual, fr.funcqual, fr.clsqual, parent=fr)
+                    self.assign(g.target, it.get(i, self), f2)
+                    return self.eval(e.elt, f2)
+                return SymSeq(it.length, get, "list")
         out = []
         self._comp(e.generators, 0, fr, lambda f: out.append(self.eval(e.elt, f)))
         return out
